@@ -136,6 +136,8 @@ def summarize(e1):
             name = "%s/%s@%s" % (r["harness"], o["name"], r["config"])
             if o["status"] == "proved":
                 proved.append((name, o, r))
+            elif o["status"] == "failed" and r.get("soft"):
+                undecided.append((name, "sufficient syntactic condition no longer holds (proof lost, nothing refuted): %s" % (o.get("detail") or ""), r))
             elif o["status"] == "failed":
                 failed.append((name, o, r))
             else:
